@@ -64,7 +64,7 @@ Print Assumptions C18_canon_prefix_refuted.
 
 (* O2, the code as found: padding bits of a bit list leak into the canonical form *)
 Theorem C18_canon_bitpad_prefix_refuted :
-  (exists bs, run_canon 30 cfg0 (mkCFix true false rdfix) (msg_bits 253) SelRoot = KOk bs
+  (exists bs, run_canon 30 cfg0 (mkCFix true false true rdfix) (msg_bits 253) SelRoot = KOk bs
               /\ spec_bytes (msg_bits 253) <> Some (Some bs))
   /\ (exists bs, run_canon 30 cfg0 repaired (msg_bits 253) SelRoot = KOk bs
                  /\ spec_bytes (msg_bits 253) = Some (Some bs)
